@@ -225,7 +225,7 @@ PROPS.update({
                 "s2m = one line per record with the model's runs (multiset of lines), m2s = exact inversion of the "
                 "model's s2m (multiset per minimiser), w=0 means the whole record. configurations: all strings over "
                 "{A,C,G,T,N} up to length 5 (thorough 6) as one file x m 1..=3 x w in (0,m+1,m+2) x threads "
-                "(1,2,4,16), and every list of 2 (thorough 3) short records x 5 settings. Usable CPUs as an environment dimension: the command line under `taskset` with 1, 2, 3 and 6 usable CPUs (thorough: every count below the machine's) x -t in (0,1,2,3,4,8,16) x 3, 16 and 37 records; oracle: the result of the unrestricted one-thread run. More than 2^16 records (one longer record, then 65 600 short ones) with 2 workers (thorough: also 3): every way of preempting the workers within the first 16 (thorough 40) decisions, each continued by default, so that a preempted worker resumes after the others have taken every remaining record. Output as a FIFO with a slow reader (8 threads, 9 MB of long lines; free-running, one execution per kind, thorough three): same canonical content as the one-thread run into a regular file. FIFO inputs (both listings, w = 0 too).",
+                "(1,2,4,16), and every list of 2 (thorough 3) short records x 5 settings. Usable CPUs as an environment dimension: the command line under `taskset` with 1, 2, 3 and 6 usable CPUs (thorough: every count below the machine's) x -t in (0,1,2,3,4,8,16) x 3, 16 and 37 records; oracle: the result of the unrestricted one-thread run. More than 2^16 records (one longer record, then 65 600 short ones) with 2 workers: every way of preempting the workers within the first 16 decisions at bound 1, each continued by default, so that a preempted worker resumes after the others have taken every remaining record. Output as a FIFO with a slow reader (8 threads, 9 MB of long lines; free-running, one execution per kind, thorough three): same canonical content as the one-thread run into a regular file. FIFO inputs (both listings, w = 0 too).",
         "states": SCHED_STATES,
         "assumptions": SCHED_ASSUME + ["configuration runs use free-running threads"],
     },
